@@ -12,11 +12,11 @@ from mitxgraders.helpers.munkres import Munkres
 RULE = ("Cases are cost matrices (exhaustive: every r x c matrix, r,c<=3, over {0,1,2} and every 4x4 over {0,1}; "
         "random: int / float / tie-heavy / grade-like matrices up to 10x10) and histories of solves on one reused "
         "Munkres object. Oracle: exact optimum by permutation enumeration (small) or subset DP; validity of the "
-        "returned pairs; caller's matrix unchanged. Non-trivial = entries not all equal AND (rectangular, or the "
+        "returned pairs; caller's matrix unchanged. Matrices with repeated rows are also passed with those rows aliased (one list object). Non-trivial = entries not all equal AND (rectangular, or the "
         "identity/diagonal assignment is not optimal, or a float matrix with a repeated entry); distinct by matrix.")
 ASSUMPTIONS = ["costs are finite, non-negative Python ints/floats <= 1e6; matrices are rectangular (not ragged), "
-               "as the solver documents", "a solve is given 20 s (normal: < 5 ms) before it counts as non-terminating"]
-REQUIRED = {'rectangular': 50, 'float': 50, 'identity-not-optimal': 50, 'reused-solver': 20}
+               "as the solver documents", "a solve is given 5 s (normal: < 5 ms) before it counts as non-terminating"]
+REQUIRED = {'aliased-rows': 200, 'rectangular': 50, 'float': 50, 'identity-not-optimal': 50, 'reused-solver': 20}
 
 PAL = [0, 0.1, 1 / 3, 0.5, 0.7, 1]
 
@@ -24,7 +24,7 @@ PAL = [0, 0.1, 1 / 3, 0.5, 0.7, 1]
 def judge_matrix(M, rec, solver=None, small=False):
     M0 = copy.deepcopy(M)
     s = solver if solver is not None else Munkres()
-    with watchdog(20):
+    with watchdog(5):
         res = s.compute(M)
     rec.calls()
     r, c = len(M0), len(M0[0])
@@ -57,20 +57,39 @@ def judge_matrix(M, rec, solver=None, small=False):
     return {'pairs': res, 'cost': total, 'optimum': best}
 
 
+def rows_of(spec):
+    """The caller's matrix.  With spec['alias'] rows that are equal by value are THE SAME list object (the
+    `[row] * n` idiom) - nothing in the contract forbids that, and a solver that works in place on its copy must not
+    be confused by it."""
+    rows = [list(r) for r in spec['m']]
+    if spec.get('alias'):
+        first = {}
+        rows = [first.setdefault(tuple(r), r) for r in rows]
+    return rows
+
+
 def judge_small(spec, rec):
-    return judge_matrix([list(r) for r in spec['m']], rec, small=True)
+    if spec.get('alias'):
+        rec.cls('aliased-rows')
+    return judge_matrix(rows_of(spec), rec, small=True)
 
 
 def items_small3(tier):
     for r in range(1, 4):
         for c in range(1, 4):
             for vals in itertools.product([0, 1, 2], repeat=r * c):
-                yield {'m': [list(vals[i * c:(i + 1) * c]) for i in range(r)]}
+                m = [list(vals[i * c:(i + 1) * c]) for i in range(r)]
+                yield {'m': m}
+                if len({tuple(x) for x in m}) < r:
+                    yield {'m': m, 'alias': True}
 
 
 def items_bin4(tier):
     for vals in itertools.product([0, 1], repeat=16):
-        yield {'m': [list(vals[i * 4:(i + 1) * 4]) for i in range(4)]}
+        m = [list(vals[i * 4:(i + 1) * 4]) for i in range(4)]
+        yield {'m': m}
+        if len({tuple(x) for x in m}) < 4:
+            yield {'m': m, 'alias': True}
 
 
 def matrices(max_dim=10):
@@ -92,11 +111,17 @@ def matrices(max_dim=10):
 
 
 def strat_random(tier):
-    return matrices().map(lambda m: {'m': m})
+    plain = matrices().map(lambda m: {'m': m})
+    # matrices with repeated rows, passed with the repeated rows aliased
+    dup = st.tuples(matrices(7), st.lists(st.integers(0, 6), min_size=1, max_size=4)).map(
+        lambda p: {'m': p[0] + [p[0][i % len(p[0])] for i in p[1]], 'alias': True})
+    return st.one_of(plain, plain, plain, dup)
 
 
 def judge_random(spec, rec):
-    return judge_matrix([list(r) for r in spec['m']], rec)
+    if spec.get('alias'):
+        rec.cls('aliased-rows')
+    return judge_matrix(rows_of(spec), rec)
 
 
 def strat_history(tier):
@@ -109,7 +134,7 @@ def judge_history(spec, rec):
     shared = Munkres()
     out = []
     for k, stp in enumerate(spec['steps']):
-        M = [list(r) for r in stp['m']]
+        M = rows_of(stp)
         try:
             o = judge_matrix(M, rec, solver=None if stp['fresh'] else shared)
         except Violation as v:
